@@ -620,7 +620,32 @@ func (g *gen) invalidate() {
 		m := msgs[r.Below(len(msgs))]
 		return m, m.Sigs[r.Below(len(m.Sigs))]
 	}
-	switch r.Below(12) {
+	switch r.Below(14) {
+	case 12: // a multiplexor switch of size 0
+		for _, m := range msgs {
+			for _, s := range m.Sigs {
+				if s.Muxor {
+					s.Size = 0
+					return
+				}
+			}
+		}
+	case 13: // a nested multiplexer made the multiplexor of its own multiplexor
+		muxor := map[string]bool{}
+		for _, m := range msgs {
+			for _, s := range m.Sigs {
+				if s.Muxor {
+					muxor[fmt.Sprintf("%d_%s", m.ID, s.Name)] = true
+				}
+			}
+		}
+		for i := range d.ExtMuxes {
+			x := &d.ExtMuxes[i]
+			if muxor[fmt.Sprintf("%d_%s", x.Msg, x.Muxed)] {
+				x.Muxor, x.Muxed = x.Muxed, x.Muxor
+				return
+			}
+		}
 	case 0:
 		if _, s := pickSig(); s != nil {
 			s.Start++
